@@ -281,7 +281,10 @@ class Controlled(QuantumGate):
         self.draw_as_controlled = True
         array = numpy.zeros((4, 4), dtype=complex)
         array[:2, :2] = numpy.eye(2)
-        array[2:, 2:] = controlled.array
+        target = controlled.array
+        if controlled.is_dagger:
+            target = numpy.conjugate(numpy.transpose(target))
+        array[2:, 2:] = target
         if distance != 0:
             raise NotImplementedError
         name = "C" + controlled.name
